@@ -59,7 +59,7 @@ ASSUMPTIONS = [
 ]
 REQUIRED_CLASSES = ['given:repaired QuaternionArray object', 'given:near-pole', 'given:near-unit rows', 'in_degrees:other carrier', 'mode:random', 'mode:given', 'gyr_noise=0', 'acc_noise=0', 'mag_noise=0', 'gyr_noise>0', 'acc_noise>0',
                     'mag_noise>0', 'in_degrees', 'radians', 'normalized_mag', 'raw_mag', 'refs:default', 'refs:explicit',
-                    'mag_noise:request-honoured', 'N=10', 'given:piecewise', 'given:through-pole', 'integration:tight-bound', 'history:generate-again']
+                    'mag_noise:request-honoured', 'N=10', 'given:piecewise', 'given:through-pole', 'integration:tight-bound', 'history:generate-again', 'history:two-objects', 'given:other layout / container']
 
 TOL = 1e-12
 DEG2RAD, RAD2DEG = rs.DEG2RAD, rs.RAD2DEG
@@ -168,6 +168,9 @@ def _construct(rng, quats, N, freq, kw):
                 obj = QuaternionArray(X)
                 obj.remove_jumps()
                 s = S.Sensors(obj, freq=freq, **kw)
+            elif typ in ('F', 'cols', 'list'):
+                X = np.asfortranarray(Q.copy()) if typ == 'F' else (np.array([Q[:, 0], Q[:, 1], Q[:, 2], Q[:, 3]]).T if typ == 'cols' else [[float(x) for x in r] for r in Q])
+                s = S.Sensors(X, freq=freq, **kw)
             else:
                 s = S.Sensors(QuaternionArray(Q.copy()) if typ == 'QA' else Q.copy(), freq=freq, **kw)
     finally:
@@ -401,8 +404,23 @@ def _case(ctx, key, build, N, freq, combo, deg, nmag, refs, given=None):
     if combo == ('def', 'def', 'def'):
         _repeat(ctx, key, s, build)
     if facts is not None and (combo in (('0', '0', '0'), ('def', 'def', 'def')) or given is not None):
-        # history: the public generate() called again on the same object (a new noise realisation) - the object again satisfies every clause
+        # two objects alive at once: ANOTHER Sensors object (other length, other unit, other noise) is built and regenerated; the first one
+        # still satisfies every clause with the draws it was built from (nothing is shared between instances)
         import ahrs.utils.sensors as S
+        old = S.GENERATOR
+        S.GENERATOR = np.random.default_rng(77)
+        try:
+            other = S.Sensors(num_samples=N + 3, freq=freq, in_degrees=not deg, gyr_noise=1.0, acc_noise=0.0, mag_noise=0.0, normalized_mag=not nmag)
+            other.generate(other.rotations)
+        except Exception as ex:
+            other = None
+            ctx.expect(False, 'a second Sensors object constructs', key, f'{type(ex).__name__}: {ex}', 'an instance')
+        finally:
+            S.GENERATOR = old
+        if other is not None:
+            _judge(ctx, key + ' [after another Sensors object was built]', s, rec, N, freq, gl, al, ml, deg, nmag, refs, given)
+            ctx.cls('history:two-objects')
+        # history: the public generate() called again on the same object (a new noise realisation) - the object again satisfies every clause
         rec2 = _RecGen(1000 + (len(key) % 7))
         old = S.GENERATOR
         S.GENERATOR = rec2
@@ -500,6 +518,8 @@ def job_given(ctx, names, N, freq, q0name, rngs, full):
         typ = 'QA' if (ti + (q0name != 'I')) % 2 == 0 else 'nd'
         if ti % 5 == 3 and '~' not in name:
             typ = 'QAr'
+        if ti % 5 == 1:
+            typ = ('F', 'cols', 'list')[(ti // 5) % 3]          # the same rows in another memory layout / container
         degc = ('py', 'np', 'int')[ti % 3]
         first = True
         for rng in rngs:
@@ -520,6 +540,7 @@ def job_given(ctx, names, N, freq, q0name, rngs, full):
                         if '~' in name: ctx.cls('given:near-unit rows')
                         if degc != 'py': ctx.cls('in_degrees:other carrier')
                         if typ == 'QAr': ctx.cls('given:repaired QuaternionArray object')
+                        if typ in ('F', 'cols', 'list'): ctx.cls('given:other layout / container')
                         if facts is None:
                             continue
                         if facts['moving']:
